@@ -93,7 +93,12 @@ let run (_prop : string) (inp : Sx.t) (obs0 : Sx.t) : outcome =
           | _ -> 0 in
         let sg c = sig_of_code c ^ (if reused then " (parsed into a Message object that an earlier parse had used; a new object gives the model's result)" else "") in
         if c1 <> 0 then false, sg c1 else if c2 <> 0 then false, sg c2
-        else if c3 <> 0 then false, sg c3 else true, "" in
+        else if c3 <> 0 then false, sg c3
+        else if reused && (match model with Sx.A "err" -> true | _ -> false) && iobs <> None then
+          (* whether a message is accepted is a matter of its bytes: the model (the parse into a new Message, with which the
+             implementation's parse into a new Message agreed) rejects these bytes, the parse into a used Message accepts them *)
+          false, "sig=accept-depends-on-object-history the same bytes are rejected when parsed into a new Message and accepted when parsed into a Message an earlier parse had used"
+        else true, "" in
   let dict = (match td, ad with None, None -> "nodict" | None, Some _ -> "app" | Some _, None -> "transport" | Some _, Some _ -> "transport+app") in
   let cls = (match fs_opt with Some _ -> if wire_ok then "fields:wire_ok" else "fields:other" | None -> "raw")
             ^ ":" ^ dict ^ ":" ^ (match model with Sx.A a -> a | _ -> "ok") in
